@@ -139,6 +139,15 @@ CHECKS["C03"] = {
             "assumptions as C02.",
 }
 
+CHECKS["C14"] = {
+    "text": "Proof (Verus, unbounded): the real InnerNodeManage::get_current_process_range returns (rank of this node among the valid nodes, number of valid nodes) for every node "
+            "table; ProcessRange::is_range is exactly `len < 2 || hash % len == index`; and a spec-level theorem over every finite view and every hash: ranks are a bijection onto "
+            "0..n-1, hence exactly one valid node owns each hash, and it is the node at position hash % n of the valid nodes in id order — the node the routing rule picks.",
+    "note": "All live nodes are assumed to hold the same view. NodeManage::route_addr / get_all_valid_nodes (iterator adapters over an actor reply, DefaultHasher) are NOT under contract: "
+            "the routing rule is stated in the theorem, not extracted; update_nodes / check_node_status (timers, Addr) not under contract. The original get_current_process_range "
+            "(iterator adapters) was outside both verifiers; its defect S7 was established by native replay and repaired with a loop Verus can take.",
+}
+
 NOT_APPLICABLE = {
     "C01": "equation between the states of seven actors across stop/restart; effects travel through Addr::send futures — no function-shaped contract can state it (DESIGN §6)",
     "C04": "crash points between file writes of several actors need a crash-Hoare logic over an external resource; neither Verus nor Kani models intermediate disk states (DESIGN §6)",
@@ -146,5 +155,4 @@ NOT_APPLICABLE = {
     "C07": "the three dispatch paths have no result and no &mut state; their behaviour is which message goes to which Addr, not expressible as a postcondition (DESIGN §6)",
     "C08": "snapshot installation across processes through actix future chains whose only effects are messages to other actors (DESIGN §6)",
     "C15": "convergence after quiescence across nodes: liveness over message schedules and node failures (DESIGN §6)",
-    "C14": "not yet built in this revision (planned: U-processrange)",
 }
